@@ -7,8 +7,10 @@ import numpy as np
 from .. import lib
 from .. import distgen as G
 
-COQ_IMPORTS = ['C12_Model']
-VERDICT = 'verdict'
+COQ_IMPORTS = ['C12_Model', 'C12_Gen']
+VERDICT = 'verdict_gen'
+# when the refinement proof about the translated source no longer checks, the hand-written model alone still runs
+FALLBACK = {'targets': ['Model/C12_Model'], 'imports': ['C12_Model'], 'verdict': 'verdict'}
 SHARD = 100
 PREAMBLE = 'From Coq Require Import PrimFloat.\n'
 RULE = ('scalar and joint distributions (dyadic float-exact, [1/n]*n decimal, random, near-degenerate pmfs; stored zeros incl. leading and '
@@ -18,9 +20,10 @@ RULE = ('scalar and joint distributions (dyadic float-exact, [1/n]*n decimal, ra
         'Non-trivial: >= 2 positive probabilities; distinct by canonical JSON.')
 TRUSTED = ['Coq 8.16.1 kernel incl. vm_compute on primitive floats (PrimFloat: binary64, round-to-nearest-even, the same arithmetic as CPython/NumPy)',
            'Python driver: float.hex() literals, exact float->Q conversion; NumPy RandomState as the oracle for the generator stream',
-           'model C12_Model.v is hand-written; tie = bit-exact correspondence']
+           'model C12_Model.v is hand-written; tie = bit-exact correspondence',
+           'tools/py2coq.py (translator of dit/math/sampling.py: _sample_discrete__python, _last_positive, _samples_discrete__python into Core/PyLang.v terms, regenerated on every run) and the interpreter of Core/PyLang.v as the meaning of that Python fragment; the refinement theorems C12_source_* tie the translated source to the hand-written model for all inputs']
 ASSUMPTIONS = ['the PrimFloat instance of the scan is executed, not proved, to satisfy the ordered-structure hypotheses of the Q theorems']
-CODES = {'corr': '1 returned indices differ from the binary64 mirror of the scan; 2 repeatability / size=None / copy checks failed',
+CODES = {'corr': '1 returned indices differ from the binary64 mirror of the scan; 2 repeatability / size=None / copy checks failed; 3 returned indices differ from the translated source (Gen/Sampling_Gen.v) interpreted over binary64; 4 the translated source does not return an array',
          'prop': '20 a returned outcome has zero probability or its cumulative interval (widened by eps) does not contain u; 21 repeatability / copy'}
 
 
